@@ -206,6 +206,11 @@ def _expand_chunk(args):
                         addv(ci, hist, a, v.to_dict()); bad = True
                 if bad:
                     out['cut'] += 1
+                    try:
+                        if system.nontrivial(st, a, obs):
+                            out['nontrivial'].add(digest((ci if system.nontrivial_per_config else 0, k, a)))
+                    except Exception:
+                        pass
                     continue
                 out['outcomes'].add(system.outcome(st, a, obs))
                 k1 = digest((None if system.merge_across_configs else ci, system.canon(st)))
